@@ -88,6 +88,13 @@ def _remember():
         _ORIG[(m, name)] = getattr(mods[m], name)
 
 
+def _seam(mod, name):
+    """A module-level cache of the interface, by name. These private dicts are the seam the eviction faults act on; if a
+    refactored library keeps that state elsewhere the faults become no-ops (the lock-step comparison is unaffected)."""
+    d = getattr(mod, name, None)
+    return d if isinstance(d, dict) else {}
+
+
 def cold_start():
     """Reset every process-global cache: a run is a pure function of its case."""
     import cotengra.interface as I
@@ -100,11 +107,11 @@ def cold_start():
     for (m, name), fn in _ORIG.items():
         setattr(mods[m], name, fn)
         fn.cache_clear()
-    I._PATH_CACHE.clear()
-    I._CONTRACT_EXPR_CACHE.clear()
-    I._find_path_handlers.clear()
-    I._find_tree_handlers.clear()
-    I._HASH_OPTIMIZE_PREPARERS.clear()
+    _seam(I, "_PATH_CACHE").clear()
+    _seam(I, "_CONTRACT_EXPR_CACHE").clear()
+    _seam(I, "_find_path_handlers").clear()
+    _seam(I, "_find_tree_handlers").clear()
+    _seam(I, "_HASH_OPTIMIZE_PREPARERS").clear()
     _FLAKY["fail"] = False
     _FLAKY["fail_auto"] = False
     import cotengra.presets as P
@@ -198,7 +205,7 @@ class uncached_internals:
             self.saved[(m, name)] = getattr(mods[m], name)
             setattr(mods[m], name, fn.__wrapped__)
         self.dicts = []
-        for d in (I._find_path_handlers, I._find_tree_handlers, I._HASH_OPTIMIZE_PREPARERS):
+        for d in (_seam(I, "_find_path_handlers"), _seam(I, "_find_tree_handlers"), _seam(I, "_HASH_OPTIMIZE_PREPARERS")):
             self.dicts.append((d, dict(d)))
             d.clear()
         return self
@@ -652,24 +659,24 @@ def run_case(prop, case):
             erng = random.Random(prng.H(case["seed"], "evict", ci))
             for what in ev:
                 if what == "expr":
-                    _evict(I._CONTRACT_EXPR_CACHE, c.get("evict_frac", 1.0), erng)
+                    _evict(_seam(I, "_CONTRACT_EXPR_CACHE"), c.get("evict_frac", 1.0), erng)
                     faults["fault:evict_expr_cache"] += 1
                 elif what == "path":
-                    _evict(I._PATH_CACHE, c.get("evict_frac", 1.0), erng)
+                    _evict(_seam(I, "_PATH_CACHE"), c.get("evict_frac", 1.0), erng)
                     faults["fault:evict_path_cache"] += 1
                 elif what == "handlers":
-                    I._find_path_handlers.clear()
-                    I._find_tree_handlers.clear()
+                    _seam(I, "_find_path_handlers").clear()
+                    _seam(I, "_find_tree_handlers").clear()
                     faults["fault:evict_dispatch_handlers"] += 1
                 elif what == "preparers":
-                    I._HASH_OPTIMIZE_PREPARERS.clear()
+                    _seam(I, "_HASH_OPTIMIZE_PREPARERS").clear()
                     faults["fault:evict_hash_preparers"] += 1
                 elif what == "lru":
                     mods = _mods()
                     for (m, name) in _ORIG:
                         getattr(mods[m], name).cache_clear()
                     faults["fault:lru_cleared"] += 1
-            n_expr0, n_path0 = len(I._CONTRACT_EXPR_CACHE), len(I._PATH_CACHE)
+            n_expr0, n_path0 = len(_seam(I, "_CONTRACT_EXPR_CACHE")), len(_seam(I, "_PATH_CACHE"))
             # ---- fault: the path finder fails once ----------------------------------
             injected_fail = False
             if c.get("fail_pathfinder") and spec["optimize"] == "sim-flaky":
@@ -702,18 +709,18 @@ def run_case(prop, case):
                 # judged by the calls that follow, which must still agree with their uncached twins
                 if sub_err is None:
                     counters["probe:injected_failure_absorbed_by_the_call"] += 1
-                if len(I._CONTRACT_EXPR_CACHE) != n_expr0 or len(I._PATH_CACHE) != n_path0:
+                if len(_seam(I, "_CONTRACT_EXPR_CACHE")) != n_expr0 or len(_seam(I, "_PATH_CACHE")) != n_path0:
                     counters["probe:failed_call_left_cache_entry"] += 1
                 log.add("call", ci, api, spec["diff"], "injected-failure", sub_err is None)
                 continue
-            grew_expr = len(I._CONTRACT_EXPR_CACHE) > n_expr0
-            grew_path = len(I._PATH_CACHE) > n_path0
+            grew_expr = len(_seam(I, "_CONTRACT_EXPR_CACHE")) > n_expr0
+            grew_path = len(_seam(I, "_PATH_CACHE")) > n_path0
             # ---- reference: same call, no caching anywhere -----------------------------
             prng.reseed_globals(prng.H(case["seed"], "call", ci))
             ref_err = None
             ref = None
             with uncached_internals(), cold_preset_state():
-                snap_e, snap_p = dict(I._CONTRACT_EXPR_CACHE), dict(I._PATH_CACHE)
+                snap_e, snap_p = dict(_seam(I, "_CONTRACT_EXPR_CACHE")), dict(_seam(I, "_PATH_CACHE"))
                 try:
                     if api == "expr_constants_inplace":
                         st = const_store.setdefault(si, {})
@@ -724,10 +731,10 @@ def run_case(prop, case):
                 except Exception as e:
                     ref_err = e
                 # the reference must not touch the subject's caches
-                I._CONTRACT_EXPR_CACHE.clear()
-                I._CONTRACT_EXPR_CACHE.update(snap_e)
-                I._PATH_CACHE.clear()
-                I._PATH_CACHE.update(snap_p)
+                _seam(I, "_CONTRACT_EXPR_CACHE").clear()
+                _seam(I, "_CONTRACT_EXPR_CACHE").update(snap_e)
+                _seam(I, "_PATH_CACHE").clear()
+                _seam(I, "_PATH_CACHE").update(snap_p)
             counters["api:" + api] += 1
             if spec.get("sizes_as", "shapes") != "shapes" and api in ("array_contract_path", "array_contract_expression"):
                 counters["probe:explicit_size_dict"] += 1
